@@ -15,6 +15,8 @@ type P1 struct {
 	Age   int32  `gorm:"default:18"`
 	Note  string `gorm:"default:'n/a'"`
 	Score float64
+	Full  string `gorm:"column:FullName;size:40"`
+	Camel int64  `gorm:"column:camelCase;default:5"`
 }
 type P1v2 struct {
 	ID    uint   `gorm:"primaryKey"`
@@ -23,6 +25,9 @@ type P1v2 struct {
 	Age   int32  `gorm:"default:18"`
 	Note  string `gorm:"default:'n/a'"`
 	Score float64
+	Full  string `gorm:"column:FullName;size:40"`
+	Camel int64  `gorm:"column:camelCase;default:5"`
+	NickN string `gorm:"column:NickName;size:16"`
 	Nick  string `gorm:"size:32;index:idx_p1_nick"`
 	Level int8   `gorm:"default:3"`
 	Born  *time.Time
@@ -173,6 +178,28 @@ type P7v2 struct {
 }
 
 func (P7v2) TableName() string { return "p7" }
+
+// ---- P8: many2many over a unique non-primary reference ----
+type P8Tag struct {
+	ID   uint   `gorm:"primaryKey"`
+	Code string `gorm:"size:20;unique"`
+	Slug string `gorm:"size:20;uniqueIndex"`
+}
+type P8 struct {
+	ID   uint    `gorm:"primaryKey"`
+	Name string  `gorm:"size:30"`
+	Tags []P8Tag `gorm:"many2many:p8_person_tags;foreignKey:ID;joinForeignKey:PersonID;references:Code;joinReferences:TagCode"`
+	Subs []P8Tag `gorm:"many2many:p8_person_subs;foreignKey:ID;joinForeignKey:PersonID;references:Slug;joinReferences:TagSlug"`
+}
+type P8v2 struct {
+	ID   uint    `gorm:"primaryKey"`
+	Name string  `gorm:"size:30"`
+	Tags []P8Tag `gorm:"many2many:p8_person_tags;foreignKey:ID;joinForeignKey:PersonID;references:Code;joinReferences:TagCode"`
+	Subs []P8Tag `gorm:"many2many:p8_person_subs;foreignKey:ID;joinForeignKey:PersonID;references:Slug;joinReferences:TagSlug"`
+	City string  `gorm:"size:30;index"`
+}
+
+func (P8v2) TableName() string { return "p8" }
 
 // ---- reorder family: chain and diamond of belongs-to dependencies ----
 type RA struct {
